@@ -37,6 +37,7 @@ Fails(e) == CASE e.e = "tree" -> FailsTree(e)
               \* (auto, xml, ptb); the sentence's token elements, one per leaf, where the file keeps tokens apart (jigg_xml, ja)
               [] e.e = "rtoks" -> (IF (IF e.fmt \in {"auto", "xml", "ptb"} THEN e.list = e.leaf ELSE Len(e.list) = Len(e.leaf))
                                    THEN {} ELSE {e.p \o "." \o e.fmt \o ".token_list_is_not_the_leaf_tokens"})
+              [] e.e = "train" -> Pre("DATA.convert_auto_to_json.", TrainFails(e.r, e.s))
               [] e.e = "reader_raised" -> {e.p \o "." \o e.fmt \o ".reader_raised"}
               [] e.e = "count" -> (IF e.got = e.expect THEN {} ELSE {e.p \o "." \o e.fmt \o ".number_of_trees_read"})
               [] e.e = "text_eq" -> (IF e.a = e.b THEN {} ELSE {e.p \o "." \o e.fmt \o "." \o e.what})
